@@ -28,7 +28,7 @@ TRAIT_CONTRACT = """
 
 def impl_unit(name, hdr, rewrites=(), **kw):
     return U(name, D, [hdr], fn="fmt_with_alignment", lifetimes="keep",
-             rewrites=[RET(), ("R1-erased-type-lifetime", "re:(expr::\\w+)<'_>", "\\1", 1), ("R8-trait-contract", "fn fmt_with_alignment<", SPEC_FNS, 1), ("R40",)] + list(rewrites),
+             rewrites=[RET(), ("R1-erased-type-lifetime", "re:(expr::\\w+)<'_>", "\\1", 1), ("R8-trait-contract", "fn fmt_with_alignment<", SPEC_FNS, 1), ("R50",)] + list(rewrites),
              contract="\n        decreases *self.value\n", **kw)
 
 GROUP = {
@@ -55,10 +55,10 @@ GROUP = {
           contract="\n        ensures r.value == other, r.context == self.context,   // @pass_context.same_context_other_value\n"),
         # ---- the operators' Display impls: one ASCII character each (the alignment arithmetic counts 1 and 3)
         U("Display for UnaryOp", EX, [r"impl fmt::Display for UnaryOp\b"], fn="fmt", lifetimes="keep", reveal_literals=True,
-          rewrites=[RET(), ("R40",), ("R1-formatter", "fmt::Formatter<'_>", "fmt::Formatter", "opt"), ("R8-drop-trait", "impl fmt::Display for UnaryOp", "impl UnaryOp", 1)],
+          rewrites=[RET(), ("R50",), ("R1-formatter", "fmt::Formatter<'_>", "fmt::Formatter", "opt"), ("R8-drop-trait", "impl fmt::Display for UnaryOp", "impl UnaryOp", 1)],
           contract="\n        ensures r is Ok ==> final(f).text() =~= old(f).text() + self.display_text(),   // @UnaryOp.fmt.prints_display_text\n"),
         U("Display for BinaryOp", EX, [r"impl fmt::Display for BinaryOp\b"], fn="fmt", lifetimes="keep", reveal_literals=True,
-          rewrites=[RET(), ("R40",), ("R1-formatter", "fmt::Formatter<'_>", "fmt::Formatter", "opt"), ("R8-drop-trait", "impl fmt::Display for BinaryOp", "impl BinaryOp", 1)],
+          rewrites=[RET(), ("R50",), ("R1-formatter", "fmt::Formatter<'_>", "fmt::Formatter", "opt"), ("R8-drop-trait", "impl fmt::Display for BinaryOp", "impl BinaryOp", 1)],
           contract="\n        ensures r is Ok ==> final(f).text() =~= old(f).text() + self.display_text(),   // @BinaryOp.fmt.prints_display_text\n"),
         U("DisplayWithAlignment(trait)", D, [r"trait DisplayWithAlignment\b"],
           rewrites=[("R8-trait-contract", "fn fmt_with_alignment<", "spec fn tx(&self) -> Seq<char>;\n    spec fn al(&self) -> Option<nat>;\n    fn fmt_with_alignment<", 1),
@@ -70,9 +70,9 @@ GROUP = {
             expr::Expr::Unary(e) => { lemma_unary_len(*e, *self.context); lemma_op_len(e.op, expr::BinaryOp::Add); lemma_expr_align_inside(*e.expr, *self.context); }
             expr::Expr::Binary(e) => { lemma_binary_len(*e, *self.context); lemma_expr_align_inside(*e.lhs, *self.context); lemma_expr_align_inside(*e.rhs, *self.context); }
             _ => {} } }""",
-                  rewrites=[("R42-box-as-ref", "re:\\b(\\w+(?:\\.\\w+)?)\\.as_ref\\(\\)", "box_ref(&\\1)", 4), ("R34d-result-map", "re:(self\\s*\\.pass_context\\(box_ref\\(&e\\.expr\\)\\)\\s*\\.fmt_with_alignment\\(f\\))\\s*\\.map\\(\\|(\\w+)\\|\\s*(\\w+\\.plus\\([^)]*\\))\\)",
+                  rewrites=[("R52-box-as-ref", "re:\\b(\\w+(?:\\.\\w+)?)\\.as_ref\\(\\)", "box_ref(&\\1)", 4), ("R34d-result-map", "re:(self\\s*\\.pass_context\\(box_ref\\(&e\\.expr\\)\\)\\s*\\.fmt_with_alignment\\(f\\))\\s*\\.map\\(\\|(\\w+)\\|\\s*(\\w+\\.plus\\([^)]*\\))\\)",
                              "match \\1 { Ok(\\2) => Ok(\\3), Err(e__) => Err(e__) }", 1)]),
         impl_unit("fmt_with_alignment for Amount", r"impl DisplayWithAlignment for WithContext<'_, expr::Amount<'_>>",
-                  rewrites=[("R24-str-model", "re:\\b(\\w+)\\.as_str\\(\\)\\.len\\(\\)", "str_byte_len(\\1.as_str())", 2), ("R41-to-string", "re:(rescale\\([^;]*?\\))\\.to_string\\(\\)", "to_string_of(&\\1)", 1)]),
+                  rewrites=[("R24-str-model", "re:\\b(\\w+)\\.as_str\\(\\)\\.len\\(\\)", "str_byte_len(\\1.as_str())", 2), ("R51-to-string", "re:(rescale\\([^;]*?\\))\\.to_string\\(\\)", "to_string_of(&\\1)", 1)]),
     ],
 }
